@@ -44,7 +44,7 @@ def enc(v):
         return {"t": [enc(x) for x in v]}
     if isinstance(v, dict):
         d = [[enc(k), enc(x)] for k, x in v.items()]
-        return {"m": d}
+        return {"m": d} if t is dict else {"m": d, "cls": t.__name__}
     return {"x": f"{t.__name__}:{v!r}"[:80]}
 
 
@@ -97,6 +97,20 @@ def build_type(d):
     from utype.parser.rule import LogicalType
     if "t" in d:
         return _plain(d["t"])
+    if "named" in d:                 # a type exported by utype.types (outside the model's fragment: spec sweep only)
+        from utype import types
+        return getattr(types, d["named"])
+    if "schema" in d:                # a nested data class with its own options (outside the model: spec sweep only)
+        from utype import Options, Schema
+        ns = {"__annotations__": {}}
+        for f in d["schema"]:
+            if f.get("ty") is not None:
+                ns["__annotations__"][f["name"]] = build_type(f["ty"])
+            ns[f["name"]] = build_field(f)
+        so = d.get("sopts") or {}
+        if so:
+            ns["__options__"] = Options(**so)
+        return type("N", (Schema,), ns)
     if "rule" in d:
         return type("R_" + d["rule"], (_plain(d["rule"]), Rule), dict(d.get("cons") or {}))
     if "list" in d:
@@ -136,7 +150,7 @@ def make_options(o, mode, extra=None):
         if mode[1] is not None:
             kw["max_errors"] = mode[1]
     if o.get("addition", "unset") != "unset":
-        kw["addition"] = o["addition"]
+        kw["addition"] = _plain(o["addition"]["t"]) if isinstance(o["addition"], dict) else o["addition"]
     for k in ("invalid_items", "invalid_keys", "invalid_values"):
         if o.get(k):
             kw[k] = o[k]
@@ -388,16 +402,20 @@ def _cached(key, make):
     return _cls_cache[key]
 
 
-def run_decl(api, decl, o, optmode, mode, data):
-    """one parse of `data` against the declaration with the given mode"""
+def get_decl(api, decl, o, optmode, mode):
+    """(status, (call, object), runtime options) for the declaration in the given mode"""
     if optmode == "class":
         key = json.dumps([api, decl, o, mode], sort_keys=True)
         st, v = _cached(key, lambda: build_callable(api, decl, make_options(o, mode)))
-        ropts = None
-    else:
-        key = json.dumps([api, decl], sort_keys=True)
-        st, v = _cached(key, lambda: build_callable(api, decl, None))
-        ropts = make_options(o, mode)
+        return st, v, None
+    key = json.dumps([api, decl], sort_keys=True)
+    st, v = _cached(key, lambda: build_callable(api, decl, None))
+    return st, v, make_options(o, mode)
+
+
+def run_decl(api, decl, o, optmode, mode, data):
+    """one parse of `data` against the declaration with the given mode"""
+    st, v, ropts = get_decl(api, decl, o, optmode, mode)
     if st != "ok":
         return {"config_error": v}
     call = v[0]
@@ -429,9 +447,11 @@ def impl(case):
     out = {"runs": runs, "alone": alone}
     # the tree the model runs on + the conversions it may ask for
     try:
-        st, v = _cached(json.dumps([api, decl, o, MODES[0]] if optmode == "class" else [api, decl], sort_keys=True), lambda: None)
+        st, v, _ = get_decl(api, decl, o, optmode, MODES[0])
         obj = v[1]
         fields = obj.__parser__.fields
+        if isinstance(o.get("addition"), dict):
+            raise Unmodelled("typed addition")
         cons_table: list = []
         rdecl = []
         cl = Closure(dict(o, addition=True) if api == "funckw" else o)
@@ -544,6 +564,17 @@ def gen_ty(rng, depth=2):
         return d
     if k < 0.74:
         return {"opt": gen_ty(rng, depth - 1)}
+    if k < 0.765:
+        fs = []
+        for name in ["p", "q"][:rng.choice([1, 2])]:
+            f = {"name": name, "ty": gen_ty(rng, depth - 1), "required": rng.random() < 0.6}
+            if not f["required"]:
+                f["default"] = gen_val(rng, f["ty"], good=True)
+            fs.append(f)
+        d = {"schema": fs}
+        if rng.random() < 0.5:
+            d["sopts"] = rng.choice([{"collect_errors": True}, {"addition": False}, {"collect_errors": True, "max_errors": 1}])
+        return d
     op = rng.choice(["|", "|", "&", "&", "^", "~"])
     if op == "~":
         return {"comb": "~", "args": [gen_ty(rng, depth - 1)]}
@@ -624,6 +655,16 @@ def gen_val(rng, ty, good=True, depth=3):
         if not good and rng.random() < 0.15:
             return enc(rng.choice(["abc", 5]))
         return enc(d)
+    if "schema" in ty:
+        d = {}
+        for f in ty["schema"]:
+            g = good or rng.random() < 0.5
+            if not g and rng.random() < 0.3:
+                continue
+            d[f["name"]] = dec(gen_val(rng, f["ty"], good=g, depth=depth - 1))
+        if not good and rng.random() < 0.3:
+            d["w"] = 1
+        return enc(d)
     if "opt" in ty:
         if rng.random() < 0.25:
             return None if good else enc("nil?")
@@ -658,6 +699,8 @@ def gen_case(rng, api=None):
             f["on_error"] = rng.choice(POLICIES if not f["required"] else ["throw", "preserve"])
         decl.append(f)
     o = {"addition": rng.choice(["unset", "unset", False, False, True]), "dfs": rng.choice([None, False, True, True])}
+    if api == "schema" and rng.random() < 0.04:
+        o["addition"] = {"t": rng.choice(["int", "str"])}
     if api == "func" and o["addition"] is True:
         o["addition"] = False
     if api == "funckw":
@@ -897,7 +940,8 @@ class C10(Check):
         s = json.dumps(case["decl"])
         combs = "".join(op for op in "&|^~" if f'"comb": "{op}"' in s)
         tag = "unmodelled/" if "unmodelled" in io else ""
-        return f"{tag}{case['api']}/dfs={bool(case['opts'].get('dfs'))}/add={case['opts'].get('addition')}/failing={min(nfail, 3)}/comb={combs or '-'}"
+        strat = "DF" if case["opts"].get("dfs") else "FF"
+        return f"{tag}{case['api']}/{strat}/failing={min(nfail, 3)}/comb={combs or '-'}"
 
     def neighbours(self, case, rng):
         if case.get("kind") != "parse":
